@@ -386,8 +386,13 @@ pub fn run(c: &Value) -> Value {
                 set.insert(a.clone());
                 let mut map = std::collections::HashMap::new();
                 map.insert(a.clone(), 1u8);
+                // the same questions asked again after the values have been used (compared, hashed, formatted, collected in a set)
+                let (ab_first, ha_first) = (a == b, hash_default(&a));
+                let _ = enum_format("ascii").format_term(&a);
+                let _ = enum_format("han").format_term(&b);
                 out.push(json!({
-                    "ab": a == b, "ba": b == a, "aa": a == a2, "bb": b == b.clone(),
+                    "ab_again": (a == b) == ab_first, "ha_again": hash_default(&a) == ha_first, "h_clone_eq": hash_default(&a2) == ha_first,
+                    "ab": ab_first, "ba": b == a, "aa": a == a2, "bb": b == b.clone(),
                     "ha": hash_default(&a).to_string(), "hb": hash_default(&b).to_string(), "hb_other_thread": hb_other_thread.to_string(),
                     "hr_eq": rs.hash_one(&a) == rs.hash_one(&b),
                     "stream_eq": ra.0 == rb.0,
